@@ -137,6 +137,39 @@ def judge_distinct(prop, r, oi, out):
             break
 
 
+def partially_crossed_weighted(case):
+    """a weighted non-derived factor that is in some but not all crossings: the documentation counts its copies as
+    distinct solutions, Design!Mult (like the code) does not - multiplicities are not judged there (DESIGN.md, READING-3)"""
+    xs = common._crossings(case["block"])
+    if len(xs) < 2:
+        return False
+    for i, f in enumerate(case["factors"]):
+        if f["kind"] == "b" and any(w > 1 for w in f["w"]):
+            n = sum(1 for X in xs if (i + 1) in X)
+            if 0 < n < len(xs):
+                return True
+    return False
+
+
+def judge_mult_exact(prop, r, oi, out):
+    """exhausted, uncapped set: every valid sequence is reported exactly Mult(seq) times (R11: a weight-w level of a
+    non-derived factor outside the crossings behaves like w distinct copies reported under one name)"""
+    o = r.obs[oi]
+    if oi not in r.enumerated or partially_crossed_weighted(r.case):
+        return
+    seen = {}
+    for ei, e in enumerate(o["exps"]):
+        seen.setdefault(json.dumps(e["s"]), []).append(ei)
+    for key, eis in seen.items():
+        if r.verdicts[oi][eis[0]] != "ok":
+            continue
+        m = r.mults.get(oi, {}).get(eis[0], 1)
+        if len(eis) != m:
+            out.append(violation(prop, "multiplicity", r.case, strategy=o["strategy"], n=o["n"], times=len(eis),
+                                 expected=m, example=json.loads(key)))
+            return
+
+
 def judge_unsat(prop, r, oi, out):
     """the specification says the design has no sequences (error reported) -> the sampler returns []"""
     o = r.obs[oi]
@@ -236,6 +269,7 @@ def c02(tier, seed):
         judge_unsat("C02", r, 1, out)
         judge_complete("C02", r, 1, out)
         judge_distinct("C02", r, 1, out)
+        judge_mult_exact("C02", r, 1, out)
         cov.add_case(r, 1 in r.enumerated and o["count"] > 0)
         if o["count"] > 0:
             cov.sample(sample_of(r, 1))
@@ -305,6 +339,7 @@ def c06(tier, seed):
         judge_unsat("C06", r, 1, out)
         judge_complete("C06", r, 1, out)
         judge_distinct("C06", r, 1, out)
+        judge_mult_exact("C06", r, 1, out)
         # reported count for designs that need no rejection step and are a single round
         m = r.obs[2] if len(r.obs) > 2 else None
         if (m and m["status"] == "returned" and "solution_count" in m.get("metrics", {}) and rejection_free(r.case)
@@ -486,4 +521,53 @@ def c09(tier, seed):
         "one solution available"), t0, machinery_error=err)
 
 
-CHECKS = {"C01": c01, "C02": c02, "C04": c04, "C06": c06, "C07": c07, "C08": c08, "C09": c09, "C16": c16}
+def has_weights(case):
+    return any(any(w > 1 for w in f["w"]) for f in case["factors"])
+
+
+def c23(tier, seed):
+    t0 = time.time()
+    cov, out, err = Coverage(), [], None
+    try:
+        rng = random.Random(seed)
+        cases = [c for c in gen.systematic_flat() + gen.systematic_corner() if has_weights(c)]
+        cases += gen.weighted_cases(rng, 40 if tier == "quick" else 500)
+        cases += gen_blocks.weighted_blocks()
+        cases += common.witness_cases("C23")
+
+        def ops(c):
+            return [{"op": "synth", "strategy": SAT, "n": pipeline.CAP, "exhaust": True},
+                    {"op": "synth", "strategy": RND, "n": pipeline.CAP, "exhaust": True, "timeout": 30}]
+        for batch in batches(cases, 200):
+            for r in pipeline.run_design(batch, ops, stats=cov.stats):
+                if not judge_build("C23", r, out):
+                    cov.add_case(r, False)
+                    continue
+                nt = False
+                for oi in (1, 2):
+                    if oi >= len(r.obs):
+                        continue
+                    o = r.obs[oi]
+                    judge_raised("C23", r, oi, out)
+                    if o["status"] != "returned":
+                        continue
+                    judge_sound("C23", r, oi, out)      # crossing quotas scale with level weights (R3)
+                    judge_unsat("C23", r, oi, out)
+                    judge_complete("C23", r, oi, out)
+                    judge_mult_exact("C23", r, oi, out)  # uncrossed weights = distinct copies under one name (R11)
+                    nt = nt or (oi in r.enumerated and o["count"] > 0)
+                cov.add_case(r, nt)
+                if nt:
+                    s = sample_of(r, 1)
+                    s["multiplicities"] = sorted(set(r.mults.get(1, {}).values()))
+                    cov.sample(s)
+    except tlc.TLCError as e:
+        err = str(e)[:2000]
+    return common.finish("C23", tier, seed, "model_checking", out, cov.as_dict(
+        "designs with level weights on crossed factors (quota scaling in CrossOK, copies not distinct), on non-derived factors "
+        "outside the crossing (Design!Mult: each valid name-level sequence must be returned exactly Mult times when the sampler "
+        "is exhausted), on derived levels, referenced by derived factors and by constraints, and in some but not all crossings "
+        "of a MultiCrossBlock; both samplers exhausted, validated by MCTrace, enumerated by MCEnum"), t0, machinery_error=err)
+
+
+CHECKS = {"C23": c23, "C01": c01, "C02": c02, "C04": c04, "C06": c06, "C07": c07, "C08": c08, "C09": c09, "C16": c16}
